@@ -147,9 +147,12 @@ impl Scenario for MutexScn {
                     let mut k = 0;
                     for op in ops.bytes() {
                         let r = panic::catch_unwind(AssertUnwindSafe(|| match op {
-                            b'E' | b'L' => {
-                                // 'L' emits a metric one byte longer than 'E'
-                                let name = format!("{}{}{}", (b'a' + ti as u8) as char, k, if op == b'L' { "x" } else { "" });
+                            b'E' | b'L' | b'H' => {
+                                // 'L' emits a metric one byte longer than 'E', 'H' one of exactly 64 KiB
+                                let mut name = format!("{}{}{}", (b'a' + ti as u8) as char, k, if op == b'L' { "x" } else { "" });
+                                if op == b'H' {
+                                    name.push_str(&"h".repeat(65536 - name.len()));
+                                }
                                 let call = sh.seq.fetch_add(1, Ordering::SeqCst);
                                 let r = target.emit(&name);
                                 let ret = sh.seq.fetch_add(1, Ordering::SeqCst);
@@ -185,7 +188,7 @@ impl Scenario for MutexScn {
                         if let Err(p) = r {
                             sh.log.lock().unwrap().push(Ev::Panic(crate::common::payload_str(&*p)));
                         }
-                        if op == b'E' || op == b'L' {
+                        if op == b'E' || op == b'L' || op == b'H' {
                             k += 1;
                         }
                     }
